@@ -19,7 +19,8 @@ EXPLANATION = (
     "and stops only on EOFError; (d) the string-named loader exists and alter_sequence builds the Source from the "
     "last filled Cache and only the elements after it; (e) cache_exists is False whenever recompute is set and "
     "drop_cache attempts to remove P on every path (a path may leave without it only after a test of the file "
-    "itself found it absent -- not through cache_exists(), which pretends absence under recompute).  Trusts pickle round-trip equality and atomicity of rename within a directory.")
+    "itself found it absent -- not through cache_exists(), which pretends absence under recompute); without recompute, cache_exists "
+    "answers by tests for the file P itself only (a zero-length file is the complete store of an empty flow).  Trusts pickle round-trip equality and atomicity of rename within a directory.")
 RULES = {
     "C18-a": "PUBLISH: the final cache name appears only after the flow loop terminated normally",
     "C18-b": "order: each value is dumped before it is yielded",
